@@ -399,6 +399,17 @@ def searcher(ctx, cfg, b, w_impl, pred_impl, rec):
                 or (np.abs(dup[0] - pred_impl[1]) > tolb[1]).any() or (np.abs(dup[3] - pred_impl[1]) > tolb[1]).any():
             ctx.violation(key + "|batch", "a query row's value depends on the other rows of the batch",
                           replay_of(cfg, b, {"perm": perm.tolist()}))
+    # history: one NumPy buffer refilled in place between two calls - the second answer is about the buffer's CURRENT rows
+    buf = np.array(Xq, dtype=float, copy=True)
+    call(buf)
+    Xalt = np.array(Xq[::-1], dtype=float, copy=True)
+    Xalt[:, : Xq.shape[1] - (1 if cfg["flavour"] == "time" else 0)] += 0.25
+    buf[...] = Xalt
+    got, want = call(buf), call(np.array(Xalt, copy=True))
+    if not np.array_equal(got, want, equal_nan=True):
+        ctx.violation(key + "|buffer-reuse", "the prediction for a NumPy buffer refilled in place differs from the prediction for a fresh copy of the same rows",
+                      replay_of(cfg, b, {"sequence": "buf = Xnew.copy(); p(buf); buf[...] = Xalt; p(buf) vs p(Xalt.copy())", "Xalt": Xalt.tolist(),
+                                         "got": np.asarray(got).tolist(), "want": np.asarray(want).tolist()}))
 
 
 def correspond(ctx, items, meta):
